@@ -112,12 +112,14 @@ def make_replay(verif, pid, r, oid):
     uid = u.id + (('@' + r.variant) if r.variant else '')
     if oid.endswith('.reachability.normal_return'):
         trace, err = [], 'no execution of the unit reaches the normal exit (canary assertion proved unreachable)'
+    elif isinstance(u, driver.ScanUnit):
+        trace, err = [], 'AST scan: ' + r.obligations[oid]['desc']
     else:
         trace, err = driver.get_trace(u, r.gb, oid, timeout=max(300, u.timeout))
     inputs = harness_inputs(trace)
     fam = family_of(u.id)
     native = None
-    if fam and (inputs or oid.endswith('.reachability.normal_return') or fam.get('src') in ('replay_bt.cpp', 'replay_fp.cpp', 'replay_ili.cpp', 'replay_c16.cpp', 'replay_c16f.cpp', 'replay_gz.cpp')):
+    if fam and (inputs or oid.endswith('.reachability.normal_return') or fam.get('src') in ('replay_bt.cpp', 'replay_fp.cpp', 'replay_ili.cpp', 'replay_nest.cpp', 'replay_c16.cpp', 'replay_c16f.cpp', 'replay_gz.cpp')):
         native = run_native(verif, fam, u.id, inputs)
     confirmed = bool(native and native.get('ran') and native.get('misbehaves'))
     fn = re.sub(r'[^A-Za-z0-9_.@-]', '_', '%s-%s-%s.json' % (pid, uid, oid))
@@ -348,6 +350,8 @@ FAMILIES['w.'] = {'name': 'w', 'custom': writer_replay}
 
 
 FAMILIES['bt.eqhash.MalformedMessageData'] = {'name': 'bt', 'src': 'replay_bt.cpp', 'argv': lambda u, i: []}
+
+FAMILIES['c03.recursion'] = {'name': 'nest', 'src': 'replay_nest.cpp', 'argv': lambda u, i: [200000]}
 
 FAMILIES['r.IndexListItem'] = {'name': 'ili', 'src': 'replay_ili.cpp', 'argv': lambda u, i: []}
 
